@@ -122,6 +122,12 @@ impl Out {
                 return;
             }
         }
+        if let Ok(l) = std::env::var("HX_TYS") {
+            if !l.split(',').any(|x| x == v["ty"].as_str().unwrap_or("")) {
+                self.n += 1;
+                return;
+            }
+        }
         if let Some(f) = &self.filter {
             for key in ["k", "op", "sp", "form", "ty"] {
                 // a logged panic has no spelling: any spelling of that form matches
@@ -621,8 +627,14 @@ macro_rules! poly_family {
         }
         // ---- quaternions (unit operands: the documented domain of rotation)
         {
-            let qa = $Q::from_slice(&a4).normalize();
+            let mut qa = $Q::from_slice(&a4).normalize();
             let qb = $Q::from_slice(&b4).normalize();
+            // every other draw: a rotation by a tiny angle (w rounds to exactly 1 with a non-zero vector part), or nearly a half turn
+            if $r.below(2) == 0 {
+                let ax = $V3::from_slice(&b3).normalize();
+                let ang: $S = [1e-4, 4e-4, 2e-4, 1e-3, 1e-2, 3.1414, 3e-5][$r.below(7) as usize];
+                if ax.is_finite() { qa = $Q::from_axis_angle(ax, ang); }
+            }
             if qa.is_finite() && qb.is_finite() {
                 let (la, lb) = (qa.to_array(), qb.to_array());
                 $o.emit(json!({"k": "poly", "op": "quat_mul", "f": $fm, "ty": stringify!($Q), "a": wv(&la), "b": wv(&lb), "got": wv(&(qa * qb).to_array())}));
@@ -690,9 +702,45 @@ macro_rules! mat_lanes {
         if let Ok(g) = catch(|| ma.abs()) { $o.emit(json!({"k": "f1", "f": $fm, "op": "abs", "ty": ty, "sp": "abs", "a": encb(&a), "got": enc(&g)})); }
     }};
 }
+/// quaternion +, -, negation, scalar * and / are component-wise
+macro_rules! quat_lanes {
+    ($o:ident, $r:ident, $Q:ident, $S:ident, $is32:expr, $fm:expr) => {{
+        let is32 = $is32;
+        let a: Vec<u64> = (0..4).map(|_| rnd_f($r, is32)).collect();
+        let b: Vec<u64> = a.iter().map(|x| partner($r, *x, is32)).collect();
+        let fa: Vec<$S> = a.iter().map(|x| <$S>::from_bits(*x as _)).collect();
+        let fb: Vec<$S> = b.iter().map(|x| <$S>::from_bits(*x as _)).collect();
+        let (qa, qb) = ($Q::from_slice(&fa), $Q::from_slice(&fb));
+        let encb = |v: &[u64]| -> Value { Value::Array(v.iter().map(|x| wf(*x, is32)).collect()) };
+        let enc = |q: &$Q| -> Value { Value::Array(q.to_array().iter().map(|x| wf(x.to_bits() as u64, is32)).collect()) };
+        let ty = stringify!($Q);
+        let mut e2 = |op: &str, sp: &str, x: &[u64], y: &[u64], g: Result<$Q, String>| {
+            match g {
+                Ok(g) => $o.emit(json!({"k": "f2", "f": $fm, "op": op, "ty": ty, "sp": sp, "a": encb(x), "b": encb(y), "got": enc(&g)})),
+                Err(p) => $o.emit(json!({"k": "f2", "f": $fm, "op": op, "ty": ty, "sp": sp, "a": encb(x), "b": encb(y), "panic": p})),
+            }
+        };
+        e2("add", "a + b", &a, &b, catch(|| qa + qb));
+        e2("sub", "a - b", &a, &b, catch(|| qa - qb));
+        for k in 0..3u64 {
+            let sb: u64 = match k {
+                0 => rnd_f($r, is32),
+                1 => { let v = [3.0f64, 5.0, 7.0, 10.0, -6.0, 11.0, 13.0][$r.below(7) as usize]; if is32 { (v as f32).to_bits() as u64 } else { v.to_bits() } }
+                _ => rnd_mod($r, is32),
+            };
+            let s = <$S>::from_bits(sb as _);
+            let ss: Vec<u64> = vec![sb; 4];
+            e2("mul", "q * s", &a, &ss, catch(|| qa * s));
+            e2("div", "q / s", &a, &ss, catch(|| qa / s));
+        }
+        if let Ok(g) = catch(|| -qa) { $o.emit(json!({"k": "f1", "f": $fm, "op": "neg", "ty": ty, "sp": "-q", "a": encb(&a), "got": enc(&g)})); }
+    }};
+}
 fn rec_mat(o: &mut Out, r: &mut Rng, draws: u64) {
     use glam::*;
     for _ in 0..draws {
+        quat_lanes!(o, r, Quat, f32, true, 32);
+        quat_lanes!(o, r, DQuat, f64, false, 64);
         mat_lanes!(o, r, Mat2, f32, true, 32, 4, add_mat2, sub_mat2);
         mat_lanes!(o, r, Mat3, f32, true, 32, 9, add_mat3, sub_mat3);
         mat_lanes!(o, r, Mat3A, f32, true, 32, 9, add_mat3, sub_mat3);
@@ -808,6 +856,95 @@ macro_rules! rel_quat {
         }
     }};
 }
+macro_rules! rel_cam {
+    ($o:ident, $r:ident, $S:ident, $is32:expr, $fm:expr, $V3:ident, $M3:ident, $M4:ident, $A3:ident, $Q:ident) => {{
+        let is32 = $is32;
+        let w = |x: $S| -> Value { wf(x.to_bits() as u64, is32) };
+        let wv = |v: &[$S]| -> Value { Value::Array(v.iter().map(|x| w(*x)).collect()) };
+        let rnd = |r: &mut Rng| -> $V3 { $V3::new((unit_f64(r) * 2.0 - 1.0) as $S, (unit_f64(r) * 2.0 - 1.0) as $S, (unit_f64(r) * 2.0 - 1.0) as $S) };
+        // ---- views: unit dir, unit up at an angle to dir whose sine is 2e-3 .. 1, eye anywhere within +-8
+        let dir = rnd($r).normalize();
+        let perp = dir.any_orthonormal_vector();
+        let perp2 = dir.cross(perp);
+        let phi = (unit_f64($r) * 6.283) as $S;
+        let side = perp * phi.cos() + perp2 * phi.sin();
+        let sn: $S = [2e-3, 8e-3, 5e-3, 0.1, 0.7, 1.0, 3e-2][$r.below(7) as usize];
+        let cs = (1.0 - sn * sn).sqrt() * if $r.below(2) == 0 { 1.0 } else { -1.0 };
+        let up = (dir * cs + side * sn).normalize();
+        let eye = rnd($r) * 8.0;
+        if dir.is_finite() && up.is_finite() && dir.length_squared() > 0.5 {
+            let m4cols = |m: &$M4| -> (Value, Value) {
+                let c = m.to_cols_array();
+                (Value::Array(vec![wv(&c[0..3]), wv(&c[4..7]), wv(&c[8..11])]), wv(&c[12..15]))
+            };
+            let a3cols = |a: &$A3| -> (Value, Value) {
+                let c = a.to_cols_array();
+                (Value::Array(vec![wv(&c[0..3]), wv(&c[3..6]), wv(&c[6..9])]), wv(&c[9..12]))
+            };
+            let qcols = |q: &$Q| -> Value {
+                let c = $M3::from_quat(*q).to_cols_array();
+                Value::Array(vec![wv(&c[0..3]), wv(&c[3..6]), wv(&c[6..9])])
+            };
+            let base = |hand: &str, ty: &str, sp: &str| json!({"k": "rel", "op": "view", "f": $fm, "ty": ty, "sp": sp, "hand": hand,
+                "eye": wv(&eye.to_array()), "dir": wv(&dir.to_array()), "up": wv(&up.to_array())});
+            for (hand, sp, m) in [("rh", "look_to_rh", $M4::look_to_rh(eye, dir, up)), ("lh", "look_to_lh", $M4::look_to_lh(eye, dir, up)),
+                                  ("rh", "look_at_rh", $M4::look_at_rh(eye, eye + dir, up)), ("lh", "look_at_lh", $M4::look_at_lh(eye, eye + dir, up))] {
+                let (lin, t) = m4cols(&m);
+                let mut ev = base(hand, stringify!($M4), sp);
+                ev["lin"] = lin;
+                ev["t"] = t;
+                // look_at derives its direction from two points: log the direction it actually used
+                if sp.starts_with("look_at") { let d2 = ((eye + dir) - eye).normalize(); ev["dir"] = wv(&d2.to_array()); }
+                $o.emit(ev);
+            }
+            for (hand, sp, a) in [("rh", "look_to_rh", $A3::look_to_rh(eye, dir, up)), ("lh", "look_to_lh", $A3::look_to_lh(eye, dir, up)),
+                                  ("rh", "look_at_rh", $A3::look_at_rh(eye, eye + dir, up)), ("lh", "look_at_lh", $A3::look_at_lh(eye, eye + dir, up))] {
+                let (lin, t) = a3cols(&a);
+                let mut ev = base(hand, stringify!($A3), sp);
+                ev["lin"] = lin;
+                ev["t"] = t;
+                if sp.starts_with("look_at") { let d2 = ((eye + dir) - eye).normalize(); ev["dir"] = wv(&d2.to_array()); }
+                $o.emit(ev);
+            }
+            for (hand, sp, q) in [("rh", "look_to_rh", $Q::look_to_rh(dir, up)), ("lh", "look_to_lh", $Q::look_to_lh(dir, up))] {
+                let mut ev = base(hand, stringify!($Q), sp);
+                ev["lin"] = qcols(&q);
+                $o.emit(ev);
+            }
+        }
+        // ---- projections: tan(fov/2) = 2^tj, any aspect in [1e-2, 1e2], far/near up to 2^20
+        let tj: i32 = $r.below(5) as i32 - 2;
+        let t = (2.0 as $S).powi(tj);
+        let fov = 2.0 * t.atan();
+        let aspect = ((2.0f64).powf(unit_f64($r) * 13.0 - 6.5)) as $S;
+        let near = ((2.0f64).powf(unit_f64($r) * 10.0 - 7.0)) as $S;
+        let ratio = [3.0f64, 100.0, 32769.0, 1.0e5, 1.0e6, 1.5][$r.below(6) as usize];
+        let far = (near as f64 * ratio) as $S;
+        let wm = |m: &$M4| -> Value { let c = m.to_cols_array(); Value::Array(c.chunks(4).map(|x| wv(x)).collect()) };
+        for (name, conv, hand, m) in [
+            ("perspective_rh_gl", "gl", "rh", $M4::perspective_rh_gl(fov, aspect, near, far)),
+            ("perspective_lh", "zo", "lh", $M4::perspective_lh(fov, aspect, near, far)),
+            ("perspective_rh", "zo", "rh", $M4::perspective_rh(fov, aspect, near, far)),
+            ("perspective_infinite_lh", "inf", "lh", $M4::perspective_infinite_lh(fov, aspect, near)),
+            ("perspective_infinite_rh", "inf", "rh", $M4::perspective_infinite_rh(fov, aspect, near)),
+            ("perspective_infinite_reverse_lh", "infrev", "lh", $M4::perspective_infinite_reverse_lh(fov, aspect, near)),
+            ("perspective_infinite_reverse_rh", "infrev", "rh", $M4::perspective_infinite_reverse_rh(fov, aspect, near)),
+        ] {
+            $o.emit(json!({"k": "rel", "op": "proj", "kind": "persp", "f": $fm, "ty": stringify!($M4), "sp": name, "conv": conv, "hand": hand, "tj": tj,
+                "aspect": w(aspect), "near": w(near), "far": w(far), "m": wm(&m)}));
+        }
+        let (l, rr) = { let a = (unit_f64($r) * 20.0 - 10.0) as $S; let b = a + ((2.0f64).powf(unit_f64($r) * 10.0 - 5.0)) as $S; (a, b) };
+        let (b, tp) = { let a = (unit_f64($r) * 20.0 - 10.0) as $S; let c = a + ((2.0f64).powf(unit_f64($r) * 10.0 - 5.0)) as $S; (a, c) };
+        for (name, conv, hand, m) in [
+            ("orthographic_rh_gl", "gl", "rh", $M4::orthographic_rh_gl(l, rr, b, tp, near, far)),
+            ("orthographic_lh", "zo", "lh", $M4::orthographic_lh(l, rr, b, tp, near, far)),
+            ("orthographic_rh", "zo", "rh", $M4::orthographic_rh(l, rr, b, tp, near, far)),
+        ] {
+            $o.emit(json!({"k": "rel", "op": "proj", "kind": "ortho", "f": $fm, "ty": stringify!($M4), "sp": name, "conv": conv, "hand": hand,
+                "l": w(l), "r": w(rr), "b": w(b), "t": w(tp), "near": w(near), "far": w(far), "m": wm(&m)}));
+        }
+    }};
+}
 fn rec_rel(o: &mut Out, r: &mut Rng, draws: u64) {
     use glam::*;
     for _ in 0..draws {
@@ -820,6 +957,8 @@ fn rec_rel(o: &mut Out, r: &mut Rng, draws: u64) {
         rel_vec!(o, r, DVec4, f64, 4, false, 64, norot);
         rel_quat!(o, r, Quat, Vec3, f32, true, 32);
         rel_quat!(o, r, DQuat, DVec3, f64, false, 64);
+        rel_cam!(o, r, f32, true, 32, Vec3, Mat3, Mat4, Affine3A, Quat);
+        rel_cam!(o, r, f64, false, 64, DVec3, DMat3, DMat4, DAffine3, DQuat);
     }
 }
 
